@@ -284,6 +284,7 @@ class Node {
    **/
   inline void run() const {
     invoke_(funcBuffer_);
+    DISPENSO_VERIF_POINT("GrComplete", this);
     numIncompletePredecessors_.store(kCompleted, std::memory_order_release);
   }
   /**
